@@ -80,7 +80,13 @@ Lemma pe_namedfield i : pe (ENamedField i) = PT TAt :: ppar (ENamedField i) i. P
 Lemma pe_index a idx : pe (EIndex a idx) = PT (TName a) :: PT TLBracket :: pjoin pe idx ++ [PT TRBracket].
 Proof. reflexivity. Qed.
 Lemma pe_in1 x a : pe (EIn [x] a) = ppar (EIn [x] a) x ++ [PSp; PT TIn; PSp; PT (TName a)]. Proof. reflexivity. Qed.
-Lemma pe_unary op v : pe (EUnary op v) = PT (un_tok op) :: ppar (EUnary op v) v. Proof. reflexivity. Qed.
+Lemma pe_unary op v :
+  pe (EUnary op v) =
+  PT (un_tok op) :: (if sign_clash op (ch1 (render (ppar (EUnary op v) v))) then [PSp] else []) ++ ppar (EUnary op v) v.
+Proof. reflexivity. Qed.
+
+Lemma toks_opt_space (b : bool) ps : toks ((if b then [PSp] else []) ++ ps) = toks ps.
+Proof. destruct b; reflexivity. Qed.
 Lemma pe_binary op l r :
   pe (EBinary op l r) =
   ppar (EBinary op l r) l ++ (match op with BConcat => [PSp] | _ => PSp :: map PT (bin_tok op) ++ [PSp] end)
@@ -145,7 +151,7 @@ Proof.
       change (gp (EIn (x :: y :: r) a)) with (EIn (map gp (x :: y :: r)) a).
       unfold lpar, rpar. cbn [toks]. rewrite toks_app. cbn [toks]. rewrite (toks_pjoin pe gp _ H).
       cbn [map flat]. reflexivity.
-  - (* unary *) rewrite pe_unary. cbn [toks gp flat]. rewrite (toks_ppar _ (EUnary op e) _ IHe eq_refl), un_tok_eq. reflexivity.
+  - (* unary *) rewrite pe_unary. cbn [toks gp flat]. rewrite toks_opt_space, (toks_ppar _ (EUnary op e) _ IHe eq_refl), un_tok_eq. reflexivity.
   - (* binary *) rewrite pe_binary. rewrite !toks_app. cbn [gp flat].
     rewrite (toks_ppar _ (EBinary op e1 e2) _ IHe1 eq_refl), (toks_ppar _ (EBinary op e1 e2) _ IHe2 eq_refl).
     destruct op; reflexivity.
